@@ -20,8 +20,8 @@ ASSUMPTIONS = ["reference model R decides A and copy multiplicities inside its d
 MINIMUMS = {"quick": {"calls_judged": 1200, "designs_with_A_ge_2": 50, "designs_with_copy_multiplicity": 2},
             "thorough": {"calls_judged": 20000, "designs_with_A_ge_2": 900, "designs_with_copy_multiplicity": 40}}
 CASE_TIMEOUT = 200
-CAP = 80
-CLASSES = ["K1", "K2", "K2", "K3", "K4", "K5", "K5", "K6", "K7", "K8", "K9", "K10", "K11", "K12"]
+CAP = 130
+CLASSES = ["K1", "K2", "K12", "K2", "K3", "K4", "K12", "K5", "K5", "K6", "K12", "K7", "K8", "K9", "K12", "K10", "K11", "K12"]
 
 
 def cases(tier, seed):
